@@ -235,7 +235,8 @@ def enclosed(boundary_fn, p, r, k0=None, kmax=256):
         tol = 4 * sag + floor
         if d > tol:
             return ('in' if inside else 'out'), (d if inside else -d) / w, 2 * k
-        if 2 * k >= kmax:
+        if d <= floor or 40 * sag < floor or 2 * k >= kmax:
+            # refinement only shrinks the sag part of the tolerance: nothing more to gain
             return 'edge', (d if inside else -d) / w, 2 * k
         k *= 2
 
